@@ -258,3 +258,15 @@ def elementwise(F, t, value, S, x="x"):
         except Unsupported:
             return None
     return v
+
+
+def as_closure(F, tracer, c):
+    """a closure value as stored inside an atom (its key: ('closure', def path)) -> an applicable closure value again"""
+    if isinstance(c, tuple) and c and c[0] == "closure" and isinstance(c[1], str):
+        node = F.closures.get(c[1])
+        if node is None:
+            raise Unsupported("closure %s not found" % c[1])
+        return ("closure", node, dict(getattr(tracer, "closure_envs", {}).get(c[1], {})))
+    if isinstance(c, tuple) and len(c) == 2 and c[0] == "P":
+        return c[1]
+    return c
